@@ -65,6 +65,8 @@ pub const GAMMA: &[&str] = &[
     "\t", "\n", "\r", "\u{1}", "\u{7f}", "é", "日", "\u{3000}", "😀",
     // neighbours of the one non-ASCII blank and Unicode spaces that are NOT Delphi blanks
     "\u{3001}", "\u{2fff}", "\u{a0}", "\u{2003}",
+    // a byte order mark as text, the Unicode line separator, NEL
+    "\u{feff}", "\u{2028}", "\u{85}",
 ];
 
 /// number of strings of length <= k over an alphabet of n symbols
@@ -312,4 +314,72 @@ pub fn large_inputs() -> Vec<String> {
         format!("type T = class\n{}end;", "  f: Integer;\n".repeat(n / 8)),
         format!("{}a;", "\u{3000}".repeat(n)),
     ]
+}
+
+/// comments and literals of every form whose body ends in every pair of Gamma characters
+pub struct TokenTails;
+const TAIL_OPENERS: [(&str, &str); 9] = [("//", "\n"), ("///", "\n"), ("// ", "\n"), ("{", "}"), ("(*", "*)"), ("{$R ", "}"), ("'", "'"), ("{ ", " }"), ("//x", "")];
+impl TokenTails {
+    pub fn len(&self) -> u64 {
+        (TAIL_OPENERS.len() * 3 * GAMMA.len() * (GAMMA.len() + 1)) as u64
+    }
+    pub fn get(&self, mut idx: u64, buf: &mut String) {
+        let n = GAMMA.len() as u64;
+        let b = GAMMA[(idx % n) as usize];
+        idx /= n;
+        let a = if idx % (n + 1) == n { "" } else { GAMMA[(idx % (n + 1)) as usize] };
+        idx /= n + 1;
+        let lead = ["", "x", "a; "][(idx % 3) as usize];
+        idx /= 3;
+        let (open, close) = TAIL_OPENERS[idx as usize];
+        buf.clear();
+        buf.push_str(lead);
+        buf.push_str(open);
+        buf.push_str(a);
+        buf.push_str(b);
+        buf.push_str(close);
+        buf.push_str("b;");
+    }
+}
+
+/// long tokens: every token kind at every length 1..=max_len and a few alignments
+pub struct LongTokens {
+    pub max_len: usize,
+}
+const LT_KINDS: usize = 12;
+const LT_ALIGNS: [usize; 5] = [0, 1, 31, 32, 33];
+impl LongTokens {
+    pub fn len(&self) -> u64 {
+        (LT_KINDS * self.max_len * LT_ALIGNS.len() * WORD_DELIMS.len()) as u64
+    }
+    pub fn get(&self, mut idx: u64, buf: &mut String) {
+        let delim = WORD_DELIMS[(idx % WORD_DELIMS.len() as u64) as usize];
+        idx /= WORD_DELIMS.len() as u64;
+        let align = LT_ALIGNS[(idx % LT_ALIGNS.len() as u64) as usize];
+        idx /= LT_ALIGNS.len() as u64;
+        let l = (idx % self.max_len as u64) as usize + 1;
+        let kind = (idx / self.max_len as u64) as usize;
+        buf.clear();
+        for _ in 0..align {
+            buf.push(' ');
+        }
+        let rep = |c: &str, n: usize| c.repeat(n);
+        let tok = match kind {
+            0 => rep("7", l),
+            1 => format!("${}", rep("F", l)),
+            2 => format!("%{}", rep("1", l)),
+            3 => format!("1.{}e+{}", rep("5", l), rep("3", l.min(4))),
+            4 => format!("'{}'", rep("s", l)),
+            5 => rep("#13", l),
+            6 => format!("{{{}}}", rep("c", l)),
+            7 => format!("(*{}*)", rep("c", l)),
+            8 => format!("//{}\n", rep("c", l)),
+            9 => format!("{{$if {}}}", rep("d", l)),
+            10 => format!("1_{}", rep("0_", l)),
+            _ => format!("'{}'", rep("''", l)),
+        };
+        buf.push_str(&tok);
+        buf.push_str(delim);
+        buf.push('x');
+    }
 }
